@@ -628,19 +628,38 @@ func c18Inflight(e *sim.Env) {
 		}
 	}
 	if len(wave) > 0 {
-		lcm.mu.Lock()
-		lcm.peak = 0
-		lcm.mu.Unlock()
-		for _, r := range wave {
-			r.block, r.timeout = 3*time.Second, time.Minute
-			lcm.block[[2]int{r.client, r.req}] = r.block
-			fire(r)
+		// a straggler of the burst (its client gave up long ago, the request was
+		// still on its way) can take a slot just as the wave arrives: a wave
+		// that is turned away is sent again twice, a few seconds apart; a slot
+		// that was never returned stays taken
+		for attempt := 0; ; attempt++ {
+			lcm.mu.Lock()
+			lcm.peak, lcm.peakWave = 0, 0
+			lcm.mu.Unlock()
+			for _, r := range wave {
+				r.req += 10 * attempt
+				r.err, r.returned = nil, false
+				r.block, r.timeout = 3*time.Second, time.Minute
+				lcm.block[[2]int{r.client, r.req}] = r.block
+				fire(r)
+			}
+			wg.Wait()
+			pr.raise(e)
+			failed := false
+			for _, r := range wave {
+				if r.err != nil {
+					failed = true
+				}
+			}
+			if !failed || attempt == 2 {
+				break
+			}
+			e.Probe("second_wave_retried")
+			time.Sleep(8 * time.Second)
 		}
-		wg.Wait()
-		pr.raise(e)
 		for _, r := range wave {
 			if r.err != nil {
-				e.Violationf("C18.syncer-inflight", "slots-not-returned:rejected", "after the burst ended, a wave of %d requests sized to the limits (MaxInflightRPCs=%d, per subnet %d over /%d) was not fully admitted: request of client %d failed: %v", len(wave), m, q, effBits, r.client, r.err)
+				e.Violationf("C18.syncer-inflight", "slots-not-returned:rejected", "after the burst ended, a wave of %d requests sized to the limits (MaxInflightRPCs=%d, per subnet %d over /%d) was not fully admitted in three attempts: request of client %d failed: %v", len(wave), m, q, effBits, r.client, r.err)
 			}
 		}
 		if lcm.peakWave != len(wave) {
